@@ -78,6 +78,36 @@ fn main() {
         }
         i += 1;
     }
+    // --replay <witness file>: re-run exactly the scenario the witness came from - its seed, tier
+    // and scenario index are in the file (storage-level witnesses of C09/C10/C18 carry the complete
+    // operation list and are replayed bit-exactly by their own code)
+    if let Some(p) = &replay
+        && let Ok(text) = std::fs::read_to_string(p)
+        && let Ok(j) = serde_json::from_str::<serde_json::Value>(&text)
+    {
+        if let Some(s) = j.get("seed").and_then(|x| x.as_u64()) {
+            seed = s;
+        }
+        if j.get("tier").and_then(|x| x.as_str()) == Some("thorough") {
+            tier = Tier::Thorough;
+        }
+        let r = j.get("replay").cloned().unwrap_or_default();
+        let idx = r.get("scenario").or_else(|| r.get("round")).and_then(|x| x.as_u64());
+        if let Some(i) = idx {
+            // single-threaded here: no other thread reads the environment yet
+            unsafe {
+                if r.get("kind").and_then(|x| x.as_str()) == Some("c02win") {
+                    std::env::set_var("VERIF_WIN_ONLY", i.to_string());
+                    std::env::set_var("VERIF_ONLY", u64::MAX.to_string());
+                } else {
+                    std::env::set_var("VERIF_ONLY", i.to_string());
+                }
+            }
+            eprintln!("replaying scenario {i} of seed {seed} ({})", j.get("signature").and_then(|x| x.as_str()).unwrap_or(""));
+        } else {
+            eprintln!("the witness names no scenario index: re-running the whole check with its seed {seed}");
+        }
+    }
     let scale: f64 = std::env::var("VERIF_SCALE").ok().and_then(|s| s.parse().ok()).unwrap_or(1.0);
     let ctx = Ctx { prop: prop.clone(), tier, seed, threads, verif_dir, replay, started: Instant::now(), scale };
     #[cfg(feature = "full")]
